@@ -301,6 +301,9 @@ func (ln *LeafNode) Decode(buf []byte) error {
 	ln.Prefix = buf[:idx]
 	buf = buf[idx+1:]
 	idx = bytes.IndexByte(buf, Separator)
+	if idx < 0 {
+		return ErrInvalidEncoding
+	}
 	ln.Path = buf[:idx]
 	buf = buf[idx+1:]
 	if len(buf) == 0 {
@@ -455,6 +458,9 @@ func (fn *FullNode) Decode(buf []byte) error {
 		}
 		if idx > 0 {
 			key := make([]byte, 32)
+			if hex.DecodedLen(idx) > len(key) {
+				return ErrInvalidEncoding
+			}
 			_, err := hex.Decode(key, buf[:idx])
 			if err != nil {
 				return err
@@ -757,7 +763,8 @@ func CreateNode(r io.Reader) (Node, error) {
 	case NodeTypeExtensionNode:
 		node = NewExtensionNode(nil, nil)
 	default:
-		panic(fmt.Sprintf("unknown node type: %v", code))
+		// no or several node type bits: not a node encoding
+		return nil, ErrInvalidEncoding
 	}
 	var ot OriginTracker
 	_ = ot.Read(r)
